@@ -5,7 +5,7 @@ patch=$1; prop=$2; tier=${3:-quick}
 cd /repo || exit 2
 if ! git diff --quiet; then echo "repo dirty"; exit 2; fi
 git apply "$patch" 2>/dev/null || git apply -3 "$patch" || { echo "patch does not apply"; git checkout -- .; exit 3; }
-cd ${VERIF_ROOT:-/verif} && ./check $prop --tier $tier ${SEED:+--seed $SEED}; rc=$?
+cd ${VERIF_ROOT:-/verif} && VERIF_EVIDENCE_DIR=/scratch/mutev ./check $prop --tier $tier ${SEED:+--seed $SEED}; rc=$?
 git -C /repo checkout -- . ; git -C /repo reset -q
 echo "exit=$rc"
 exit $rc
